@@ -114,6 +114,12 @@ func linDepth(v ssa.Value, d int) linForm {
 				return newLin().add(linDepth(x.Y, d+1), k)
 			}
 		}
+	case *ssa.Phi:
+		// a counter that runs along with the index of a range loop: one more on every
+		// way round, so inside the body it is its initial value plus the index
+		if init, idx, ok := coCounter(x); ok {
+			return linDepth(init, d+1).add(linDepth(idx, d+1), 1)
+		}
 	case *ssa.Convert:
 		// integer <-> integer conversions keep the value inside the guarded
 		// ranges the rules establish; treated as identity for the form
@@ -159,6 +165,20 @@ func ineqs(facts []Fact) []linForm {
 				if call, ok := cmp.X.(*ssa.Call); ok {
 					if f := calleeObj(&call.Call); f != nil && f.Pkg() != nil && (f.Pkg().Path() == "strings" || f.Pkg().Path() == "bytes") && strings.Contains(f.Name(), "Index") {
 						out = append(out, a)
+					}
+				}
+			}
+		}
+		// a length that is not 0 is at least 1
+		if cmp.Op == token.NEQ {
+			for _, side := range [][2]ssa.Value{{cmp.X, cmp.Y}, {cmp.Y, cmp.X}} {
+				if k, ok := constInt(side[1]); ok && k == 0 {
+					if call, ok := side[0].(*ssa.Call); ok {
+						if bi, ok := call.Call.Value.(*ssa.Builtin); ok && (bi.Name() == "len" || bi.Name() == "cap") {
+							g := lin(side[0])
+							g.c -= 1
+							out = append(out, g)
+						}
 					}
 				}
 			}
@@ -277,6 +297,12 @@ func proveValueNonNeg(v ssa.Value, b *ssa.BasicBlock, depth int) bool {
 	if proveNonNeg(lin(v), hyps, unsignedSymbolsOf(v)) {
 		return true
 	}
+	// a quotient by a positive constant lies between 0 and its dividend, where the dividend is known not to be negative
+	if qh := quotientHyps(v, hyps, 0); len(qh) > 0 {
+		if proveNonNeg(lin(v), append(append([]linForm{}, hyps...), qh...), unsignedSymbolsOf(v)) {
+			return true
+		}
+	}
 	if ph, ok := v.(*ssa.Phi); ok && depth < 3 {
 		for k, e := range ph.Edges {
 			pred := ph.Block().Preds[k]
@@ -289,4 +315,80 @@ func proveValueNonNeg(v ssa.Value, b *ssa.BasicBlock, depth int) bool {
 		return true
 	}
 	return false
+}
+
+func quotientHyps(v ssa.Value, hyps []linForm, d int) []linForm {
+	if d > 6 {
+		return nil
+	}
+	var out []linForm
+	switch x := v.(type) {
+	case *ssa.Convert:
+		return quotientHyps(x.X, hyps, d+1)
+	case *ssa.ChangeType:
+		return quotientHyps(x.X, hyps, d+1)
+	case *ssa.BinOp:
+		out = append(out, quotientHyps(x.X, hyps, d+1)...)
+		out = append(out, quotientHyps(x.Y, hyps, d+1)...)
+		if x.Op == token.QUO {
+			if k, ok := constInt(x.Y); ok && k >= 1 {
+				e := lin(x.X)
+				if proveNonNeg(e, append(append([]linForm{}, hyps...), out...), unsignedSymbolsOf(x.X)) {
+					q := lin(x)
+					out = append(out, q, e.add(q, -1))
+				}
+			}
+		}
+	}
+	return out
+}
+
+// coCounter: p is an integer phi at the head of a range loop whose value on
+// every back edge is p+1 (whatever way the body is left towards the next
+// trip); init is its value on entry, idx the index variable of the loop (the
+// rangeindex phi plus one, as the body sees it). Inside the body p == init + idx.
+func coCounter(p *ssa.Phi) (init, idx ssa.Value, ok bool) {
+	if p.Comment == "rangeindex" || !isInteger(p.Type()) {
+		return nil, nil, false
+	}
+	h := p.Block()
+	var r *ssa.Phi
+	for _, in := range h.Instrs {
+		ph, isPhi := in.(*ssa.Phi)
+		if !isPhi {
+			break
+		}
+		if ph.Comment == "rangeindex" {
+			r = ph
+		}
+	}
+	if r == nil {
+		return nil, nil, false
+	}
+	nInit := 0
+	for k, pred := range h.Preds {
+		if !h.Dominates(pred) {
+			init = p.Edges[k]
+			nInit++
+			continue
+		}
+		b, isB := p.Edges[k].(*ssa.BinOp)
+		if !isB || b.Op != token.ADD || b.X != ssa.Value(p) {
+			return nil, nil, false
+		}
+		if c, isC := constInt(b.Y); !isC || c != 1 {
+			return nil, nil, false
+		}
+	}
+	if nInit != 1 {
+		return nil, nil, false
+	}
+	for _, ref := range *r.Referrers() {
+		if b, isB := ref.(*ssa.BinOp); isB && b.Op == token.ADD && b.X == ssa.Value(r) {
+			if c, isC := constInt(b.Y); isC && c == 1 {
+				return init, b, true
+			}
+		}
+	}
+	return nil, nil, false
 }
